@@ -35,9 +35,9 @@ def zero_like(f, i):
     return False
 
 
-def rule_reset(ctx):
+def rule_reset(ctx, rid="reset"):
     db = ctx.db
-    r = ctx.rule("reset", "each global location written and read by per-file code is either never read before a whole-object store "
+    r = ctx.rule(rid, "each global location written and read by per-file code is either never read before a whole-object store "
                  "on any path from do_source_file's entry (no upward-exposed load), or reset to zero on every path of uncrustify_end")
     gs = gstate(db)
     root = db.fn("do_source_file", file=UNC)
@@ -204,9 +204,18 @@ def rule_qt_restore(ctx):
     r.check(flag_stores(sq, "QT_SIGNAL_SLOT_found") == ["true"], "save-sets-found", db.loc(sq, sq.l0), "save_set_options_for_QT does not set QT_SIGNAL_SLOT_found = true exactly once")
     r.check(flag_stores(rq, "QT_SIGNAL_SLOT_found") == ["false"] and flag_stores(rq, "restoreValues") == ["false"] and flag_stores(rq, "QT_SIGNAL_SLOT_level") == ["0"],
             "restore-clears-flags", db.loc(rq, rq.l0), "restore_options_for_QT does not clear found/restoreValues/level")
-    # a second save while one is pending would overwrite the saved values: save only under !found ... (today: not guarded;
-    # the saved value of an already overridden option would be the override) -> require that every caller tests the flag
-    # or that restore precedes; report what is there
+    # a second save while one is pending would record the override as the user's value (nested SIGNAL(SIGNAL(..)): found and
+    # repaired on the pinned tree): save_and_override runs only under the fact that no override is pending, established in
+    # save_set_options_for_QT itself or at every one of its call sites
+    def no_pending(f, n):
+        cs = [(expr_str(f, cn), pol) for cn, pol in f.guard_conds(f.nblock[n["i"]]) if cn is not None]
+        return ("QT_SIGNAL_SLOT_found", False) in cs or ("!QT_SIGNAL_SLOT_found", True) in cs
+    for g, n in db.callers_of_key(sv.key):
+        inner = no_pending(g, n)
+        outer = bool(db.callers_of(g.qn)) and all(no_pending(h, m) for h, m in db.callers_of(g.qn))
+        r.check(inner or outer, "save-only-when-none-pending/%s" % g.qn, db.loc(g, n),
+                "temporary_iarf_option::save_and_override() can run while an override is pending (no dominating test of QT_SIGNAL_SLOT_found "
+                "in %s nor at all of its call sites): the saved value becomes the override and is what restore() and every later file get" % g.qn)
     for name in ("QT_SIGNAL_SLOT_found", "QT_SIGNAL_SLOT_level", "restoreValues"):
         for f in db.funcs.values():
             for n in f.nodes.values():
